@@ -544,6 +544,7 @@ func (x *Exec) cutArrival(st *State, f *Frame, hdr *ssa.BasicBlock) bool {
 			st.obs["cut:havoc"] = hv
 			// phi overrides are applied after the phis are evaluated: emulate by
 			// evaluating phis from the entry edge and then overwriting
+			x.phiAlias = phiAliases(hdr, cut.Phis)
 			f.prev = f.blk
 			f.blk = hdr
 			f.ip = 0
@@ -559,14 +560,18 @@ func (x *Exec) cutArrival(st *State, f *Frame, hdr *ssa.BasicBlock) bool {
 					}
 				}
 				v := x.get(st, f, ph.Edges[idx])
-				if ov, ok := cut.Phis[ph.Comment]; ok {
+				pname := ph.Comment
+				if a, ok := x.phiAlias[pname]; ok {
+					pname = a
+				}
+				if ov, ok := cut.Phis[pname]; ok {
 					w := x.word(v)
-					phis[ph.Comment] = map[string]interface{}{"entry": w.ID, "set": ov}
+					phis[pname] = map[string]interface{}{"entry": w.ID, "set": ov}
 					v = W{x.d.ConstI(w.W, ov)}
 				} else if w, ok := v.(W); ok && !w.n.IsConst() {
 					x.fail("cut: symbolic phi %s without override", ph.Comment)
 				} else if ok {
-					phis[ph.Comment] = map[string]interface{}{"entry": w.n.ID}
+					phis[pname] = map[string]interface{}{"entry": w.n.ID}
 				}
 				f.loc[ph] = v
 				f.ip++
@@ -603,7 +608,11 @@ func (x *Exec) cutArrival(st *State, f *Frame, hdr *ssa.BasicBlock) bool {
 				}
 			}
 			if w, ok := x.get(st, f, ph.Edges[idx]).(W); ok {
-				ph2[ph.Comment] = w.n.ID
+				pname := ph.Comment
+				if a, ok := x.phiAlias[pname]; ok {
+					pname = a
+				}
+				ph2[pname] = w.n.ID
 			}
 		}
 		st.obs["cut:next_phis"] = ph2
@@ -1185,4 +1194,39 @@ func (x *Exec) bigStub(st *State, f *Frame, in *ssa.Call, fn *ssa.Function, name
 	}
 	x.fail("math/big function %s is not modelled", name)
 	return false
+}
+
+
+// phiAliases: a loop counter that was merely renamed still receives its override: a requested name that no phi of the header carries
+// is given to the header's only other integer phi.
+func phiAliases(hdr *ssa.BasicBlock, want map[string]int64) map[string]string {
+	out := map[string]string{}
+	have := map[string]bool{}
+	var ints []string
+	for _, ins := range hdr.Instrs {
+		ph, ok := ins.(*ssa.Phi)
+		if !ok {
+			break
+		}
+		have[ph.Comment] = true
+		if intWidth(ph.Type()) > 0 {
+			ints = append(ints, ph.Comment)
+		}
+	}
+	var missing []string
+	for k := range want {
+		if !have[k] {
+			missing = append(missing, k)
+		}
+	}
+	var free []string
+	for _, c := range ints {
+		if _, asked := want[c]; !asked {
+			free = append(free, c)
+		}
+	}
+	if len(missing) == 1 && len(free) == 1 {
+		out[free[0]] = missing[0]
+	}
+	return out
 }
